@@ -34,7 +34,7 @@ def dispatch (line : String) : String :=
         else if prop = "c03" || prop = "c01" || prop = "c02" || prop = "c08" || prop = "c06" || prop = "c20" then C03.handle op ns
         else if prop = "c17" then C17.handle op ns
         else if prop = "c19" then C19.handle op ns
-        else if prop = "c09" || prop = "c10" then Stark.handle op ns
+        else if prop = "c09" || prop = "c10" || prop = "c11" then Stark.handle op ns
         else if prop = "c18" then (if op = "sverify" then Stark.handle "verify" ns else C03.handle op ns).map fun v =>
           if v = "ACCEPT" then "OK" else if v.startsWith "REJECT" then "ERR" else v
         else none
